@@ -42,9 +42,9 @@ CLAIMED.update({
          'that the renderer reads line-wise from stdin/child stdout and that no buffering writer is interposed. Not decided: timing and OS-level buffering.',
     note=E1_NOTE, design='5/C11'),
  'C14': dict(
-    technique='abstract interpretation (DROP-HDR typestate for the captured hunk header; ORD-W at header writers) + MIR guarded-by/follows rule for the file-header pairing + must-assign / flush-before-overwrite rules at the section boundary + table rule for the /dev/null file choice',
+    technique='abstract interpretation (DROP-HDR typestate for the captured hunk header; ORD-W at header writers) + MIR guarded-by/follows rule for the file-header pairing + must-assign / flush-before-overwrite rules at the section boundary + table rule for the /dev/null file choice + operand-provenance rule on the path comparisons of the header wording function (CLASSIFY-RAW)',
     text='Decides that a captured hunk header is always handed to an emitter before its state is left, that the composed file header is written only under handled != current and then marked handled, '
-         'that a write to current_file_pair outside the reset is followed by the header decision (REARM), that the header-related per-file fields are reassigned on every path of the `diff ` handler and only after the previous section\'s pending header is flushed, and that the hunk header names minus_file exactly when plus_file is /dev/null. Not decided: path parsing and labels.',
+         'that a write to current_file_pair outside the reset is followed by the header decision (REARM), that the header-related per-file fields are reassigned on every path of the `diff ` handler and only after the previous section\'s pending header is flushed, that the hunk header names minus_file exactly when plus_file is /dev/null, and that added / removed / renamed is decided by comparing the paths as read (not their displayed form). Not decided: path parsing and label texts.',
     note=E1_NOTE, design='5/C14'),
 })
 RULE_NOTE = 'Trusts rustc MIR construction + callee resolution, the fact serialisation and the Python rule engines; decides the named structural clauses only (see DESIGN.md).'
@@ -52,8 +52,8 @@ CLAIMED.update({
  'C03': dict(technique='MIR rules on the input path: regex group-tree vs unwrapped capture reads (P1), unwrap of numeric parse results (P2), unsigned-subtraction discharge by dominating comparison / guard / hand-proved table (P3), abstract-interpreter reachability of explicit aborts (P4; without grammar assumptions in the thorough tier), string slicing at computed byte positions incl. crossing bounds (P5), Vec/slice indexing outside the alignment kernels (P6), non-emptiness of the parsed coordinate list (NONEMPTY)',
     text='Decides seven necessary conditions of never-crashes on the functions reachable from the renderer; the whole property (all panics, hangs, allocation) is not statically decidable here and the evidence says so.',
     note=RULE_NOTE + ' Hand-proved tables (assumptions/c03_*.json) carry one reason per exempted site. Group structure from Python\'s regex parser.', design='5/C03'),
- 'C05': dict(technique='finite-table extraction from MIR (State variant -> increments / displayed numbers) compared with the specification table; must-call + provenance rules for per-hunk initialisation (incl. the coordinate parser reading only the text between the @@ markers); abstract evaluation of the line painter over the panel domain',
-    text='Decides the increment/number table for all 16 State variants, that counters are re-seeded from the first/last coordinate pair on every path of the hunk-header emitter, and that increment=false exactly for the Left panel.',
+ 'C05': dict(technique='finite-table extraction from MIR (State variant -> increments / displayed numbers) compared with the specification table; must-call + provenance rules for per-hunk initialisation (incl. the coordinate parser reading only the text between the @@ markers); abstract evaluation of the line painter over the panel domain; place-provenance rule on the position handed to the hunk-header painter (HDR-POS)',
+    text='Decides the increment/number table for all 16 State variants, that counters are re-seeded from the first/last coordinate pair on every path of the hunk-header emitter, that increment=false exactly for the Left panel, and that the position printed in a hunk header is the start of the last coordinate pair only.',
     note=RULE_NOTE + ' Not decided: side-by-side compensation arithmetic, widths, header text.', design='5/C05'),
  'C06': dict(technique='MIR provenance rule on the operation tags of self-built annotated lines, must-pass / pairing rule between line pushes and alignment-entry pushes, monotone-cursor rule (only += 1, increment after every use), call-graph unreachability for the unchanged-line painter',
     text='Decides only the structural clauses of C06: lines emitted without a partner are tagged from the no-op operation vectors only (no emphasis); every annotated line gets exactly one alignment entry; the plus cursor and the enumerate() minus index make successive alignment entries strictly increasing in both components (pairs never cross, no plus line paired twice); unchanged lines never reach edit inference. '
@@ -63,29 +63,29 @@ CLAIMED.update({
     text='Decides only the structural clauses of C07: every side-by-side row is left panel + right panel + newline, appended once each and in order on every path; the left panel is fed exclusively from Left(minus)-indexed data and component 0 of the alignment pair, the right panel from Right(plus)-indexed data and component 1; a panel line is padded for the side it was painted for; unchanged lines are painted for Left then Right with one newline per row. '
          'NOT decided (value-level arithmetic over display widths): panel widths, wrap points, losslessness of wrapping, truncation marks, that no row exceeds the width, column alignment.',
     note=RULE_NOTE + ' A change that breaks only the geometry / wrapping clauses is outside what this check can see.', design='6, 11.10'),
- 'C08': dict(technique='MIR who-may-read rule: every call receiving StateMachine.raw_line-derived data classified as carry/emit, escape-aware/documented, ingest guard, or violation; byte-accounting rule on the escape iterator (must-pass + finite-domain evaluation of Perform::execute over all control bytes); partial evaluation of the raw-line decision with is_raw fixed (RAW-STYLE)',
-    text='Decides that no decision or parse in the renderer is taken on the raw (possibly coloured) line outside the enumerated escape-aware functions: a necessary condition for coloured and uncoloured input to be treated alike; and that the escape-sequence iterator counts every text byte (printed characters by UTF-8 length, each C0 control byte once) so that stripping removes escape sequences only; and that a line whose style is `raw` always keeps its raw form.',
+ 'C08': dict(technique='MIR who-may-read rule: every call receiving StateMachine.raw_line-derived data classified as carry/emit, escape-aware/documented, ingest guard, or violation; byte-accounting rule on the escape iterator (must-pass + finite-domain evaluation of Perform::execute over all control bytes); partial evaluation of the raw-line decision with is_raw fixed (RAW-STYLE); reachability rule between the CR removal and the max-line-length cut in the ingest functions (CR-FIRST)',
+    text='Decides that no decision or parse in the renderer is taken on the raw (possibly coloured) line outside the enumerated escape-aware functions: a necessary condition for coloured and uncoloured input to be treated alike; and that the escape-sequence iterator counts every text byte (printed characters by UTF-8 length, each C0 control byte once) so that stripping removes escape sequences only; that a line whose style is `raw` always keeps its raw form; and that the carriage return git leaves before a trailing colour reset is removed before the line is measured for truncation.',
     note=RULE_NOTE + ' Byte equality of the two runs and moved-line colours are value-level and not decided.', design='5/C08'),
  'C09': dict(technique='MIR follows/guarded-by/must-pass rules on escape constants and string cutters (BALANCED, CUTTERS incl. copy-all and re-append of a stripped reset), byte-accounting rule on the escape iterator',
     text='Decides that every state-setting escape constant delta emits is followed by a reset on all paths or painted through ansi_term, and that every truncate/pop/grapheme cut in the renderer is guarded so that no escape sequence is split, that the truncation routine copies every escape item of its input on all paths, that a stripped trailing reset is appended again on every path, and that element ranges of the escape iterator account for every text byte.',
     note=RULE_NOTE + ' Balance of the input\'s own sequences and correctness of computed cut positions are not decided.', design='5/C09'),
- 'C12': dict(technique='table agreement over MIR: parser word->attribute table vs printer attribute->word table, positional slot guards, three colour tables, Config field <-> style key, colour-depth provenance at every style/colour parser call, set-only attribute flags in the word loop (ORDER), plus hash-order lint on the printer',
-    text='Decides the structural round-trip conditions of the style language (every parsed attribute is printed with a word that parses back; foreground/background slots are positional; colour number/variant/name tables agree; each style option feeds the field of the same name; every parser call receives the configured colour depth; attribute words commute).',
+ 'C12': dict(technique='table agreement over MIR: parser word->attribute table vs printer attribute->word table, positional slot guards, three colour tables, Config field <-> style key, colour-depth provenance at every style/colour parser call, set-only attribute flags in the word loop (ORDER), printed words vs the words the special-decoration extractor consumes unconditionally (RESERVED), plus hash-order lint on the printer',
+    text='Decides the structural round-trip conditions of the style language (every parsed attribute is printed with a word that parses back; foreground/background slots are positional; colour number/variant/name tables agree; each style option feeds the field of the same name; every parser call receives the configured colour depth; attribute words commute; no printed attribute word is one that the decoration pre-pass removes from commit / file / hunk-header style strings).',
     note=RULE_NOTE + ' Palette / hex arithmetic not decided.', design='5/C12'),
  'C13': dict(technique='MIR ordering (reachability between lookups), iterator-type, guarded-by rules on option processing; phase-order rule on gather_features; must-pass rule on the recursive feature gatherer (WALK); who-may-call for raw config accessors; hash-order lint',
-    text='Decides main-section-first / features-reversed / custom-before-builtin lookup order, command-line-wins for all 108 option writes, the four-phase feature gathering order, that every named feature has its own section walked for sub-features and flags, --no-gitconfig gating, env overrides before file config, and determinism of option processing.',
+    text='Decides main-section-first / features-reversed / custom-before-builtin lookup order, command-line-wins for all option writes and mutable borrows of option fields in set_options, the four-phase feature gathering order, that every named feature has its own section walked for sub-features and flags, --no-gitconfig gating, env overrides before file config, and determinism of option processing.',
     note=RULE_NOTE + ' The value-level lattice of placements is not decided.', design='5/C13'),
  'C15': dict(technique='taint rule on ansi_term::Style constructions (syntect provenance only into `foreground`, guarded by is_syntax_highlighted), who-may-call for content-sniffing lookups, must-call for highlighter reset, field coverage of the section-merging comparison (COALESCE), E1 typestate STALE-SYNTAX',
     text='Decides that syntax colours only reach the foreground of styles that ask for syntax, that characters are merged into one painted run only when their style pairs agree on is_syntax_highlighted, diff style and syntax foreground, that the language is never sniffed from content for a file name, and that the language is re-selected after every file-name change before a hunk is painted.',
     note=E1_NOTE, design='5/C15'),
- 'C16': dict(technique='table agreement: the five grep regex variants assembled from MIR literals, group trees from the regex parser, vs the reader\'s (index, LineType) table, the separator printer and the try-order array; provenance rule on the rg --json submatch offset; no lazy repetition in the path group (GREEDY)',
-    text='Decides that groups 1 and 8 participate in every match, 2/4/6 are exclusive alternatives whose leading separator matches the LineType they are mapped to and printed with, 3/5/7 nest in them, the plain-text variants are tried most specific first with a greedy path group, and the offset applied to rg --json submatches is measured on the tab-expanded text.',
+ 'C16': dict(technique='table agreement: the five grep regex variants assembled from MIR literals, group trees from the regex parser, vs the reader\'s (index, LineType) table, the separator printer and the try-order array; provenance rule on the rg --json submatch offset; no lazy repetition in the path group (GREEDY); mutation rule on the rg --json line text (TEXT-INTACT)',
+    text='Decides that groups 1 and 8 participate in every match, 2/4/6 are exclusive alternatives whose leading separator matches the LineType they are mapped to and printed with, 3/5/7 nest in them, the plain-text variants are tried most specific first with a greedy path group, the offset applied to rg --json submatches is measured on the tab-expanded text, and the rg --json line text loses nothing but its line terminator before the reported offsets are applied to it.',
     note=RULE_NOTE + ' Ambiguous plain-text parses and rg --json decoding not decided.', design='5/C16'),
  'C17': dict(technique='abstract evaluation of the colour-choice function over its finite decision domain (memoised predicates for memo lookups and colour equality), MIR edge rule for the next-colour function, must-call/provenance rules for the memo, regex group participation',
     text='Decides the blame colour table against the specification for every feasible case, the alternative-colour rule, that the memo is updated for every non-repeat, and that the five unwrapped regex groups are mandatory.',
     note=RULE_NOTE + ' Timestamp parsing and padding not decided.', design='5/C17'),
- 'C18': dict(technique='MIR unreachable-from, error-discipline (incl. no partial Write::write), BrokenPipe mapping (function summaries + edge-dominated arms), who-may-call process::exit (incl. nothing exit-capable in run_app while the pager handle is alive), provenance of exit status, pager selection table',
-    text='Decides that the renderer never prints to stdout directly or drops/unwraps output errors, that every io::Error leaving run_app has passed a BrokenPipe->Ok mapping and BrokenPipe arms are silent, exit discipline, status pass-through and the pager selection order.',
+ 'C18': dict(technique='MIR unreachable-from, error-discipline (incl. no partial Write::write), BrokenPipe mapping (function summaries + edge-dominated arms), who-may-call process::exit (incl. nothing exit-capable in run_app while the pager handle is alive), provenance of exit status, pager selection table, ownership rule on the child stdout handle in functions that wait for the child (WAIT-CLOSED)',
+    text='Decides that the renderer never prints to stdout directly or drops/unwraps output errors, that every io::Error leaving run_app has passed a BrokenPipe->Ok mapping and BrokenPipe arms are silent, exit discipline, status pass-through, the pager selection order, and that the wrapped command\'s stdout handle is moved out of the Child before delta waits for it (so the wait on the broken-pipe path can return).',
     note=RULE_NOTE + ' Delivery of bytes to the pager and signals not decided.', design='5/C18'),
  'C19': dict(technique='who-may-construct for OSC literals + template check, Element->is_escape table, sibling-arm provenance agreement at hyperlink call sites, provenance of the {line} substitution, display-transformation taint on link targets and on link-text vs fallback-text of Option-returning link helpers',
     text='Decides that links are opened and closed by one template, that OSC elements are never measured, that enabling hyperlinks only wraps the value that would be printed anyway, that the linked line number is the formatter argument, and that no display-only transformation reaches the path a link points at.',
